@@ -43,6 +43,7 @@ type Finding struct {
 	Entry      string // harness to replay (empty: not replayable natively)
 	PkgDir     string
 	Replay     func(dir string) (reproduced bool, detail string) // custom replay
+	Test       string // native replay test name (default TestVerifReplay)
 }
 
 func (f Finding) Signature() string {
@@ -142,7 +143,7 @@ func runCheck(p *PropCheck, tier string) int {
 	for _, j := range jobs {
 		seen := map[string]int{}
 		for _, v := range j.res.Violations {
-			f := Finding{Obligation: j.ID, Kind: v.Kind, Msg: v.Msg, Inputs: v.Extra["inputs"], Entry: j.Entry, PkgDir: j.Pkg}
+			f := Finding{Obligation: j.ID, Kind: v.Kind, Msg: v.Msg, Inputs: v.Extra["inputs"], Entry: j.Entry, PkgDir: j.Pkg, Test: j.ReplayTest}
 			if v.Kind == "panic" || v.Kind == "blocked" || v.Kind == "alloc" || v.Kind == "hang" {
 				f.Msg = stripSite(v.Msg)
 				f.Fn = v.Site
@@ -317,12 +318,15 @@ func replayFinding(p *PropCheck, f Finding) (bool, string, string) {
 		ok, detail := f.Replay(dir)
 		return ok, detail, dir
 	}
-	if f.Entry == "" {
+	if f.Entry == "" && f.Test == "" {
 		return false, "no native replay for this obligation", dir
 	}
 	os.WriteFile(filepath.Join(dir, "model.json"), []byte(orEmptyObj(f.Inputs)), 0o644)
 	// copy harness files and build the overlay
 	ov := harnessOverlay([]string{f.PkgDir})
+	for k, v := range harnessTestOverlay([]string{f.PkgDir}) {
+		ov[k] = v
+	}
 	repl := map[string]string{}
 	pkgName := ""
 	for virt, content := range ov {
@@ -349,8 +353,12 @@ func replayFinding(p *PropCheck, f Finding) (bool, string, string) {
 	if f.Kind == "hang" {
 		tmo = "20s"
 	}
-	run := fmt.Sprintf("#!/bin/sh\n# replays the counterexample against the real build; prints REPLAY-OUTCOME\ncd %s && env -u GOTOOLCHAIN GOFLAGS=-mod=mod GOPROXY=off VERIF_ENTRY=%s VERIF_MODEL=%s/model.json go test -v -vet=off -count=1 -timeout "+tmo+" -run '^TestVerifReplay$' -overlay %s/overlay.json ./%s/ 2>&1\n",
-		repoDir(), f.Entry, dir, dir, f.PkgDir)
+	test := "TestVerifReplay"
+	if f.Test != "" {
+		test = f.Test
+	}
+	run := fmt.Sprintf("#!/bin/sh\n# replays the counterexample against the real build; prints REPLAY-OUTCOME\ncd %s && env -u GOTOOLCHAIN GOFLAGS=-mod=mod GOPROXY=off VERIF_ENTRY=%s VERIF_MODEL=%s/model.json go test -v -vet=off -count=1 -timeout "+tmo+" -run '^%s$' -overlay %s/overlay.json ./%s/ 2>&1\n",
+		repoDir(), f.Entry, dir, test, dir, f.PkgDir)
 	os.WriteFile(filepath.Join(dir, "run.sh"), []byte(run), 0o755)
 	ok, detail := execReplay(dir)
 	return ok, detail, dir
